@@ -32,18 +32,14 @@ theorem chswReset_wss (s : State) (id : Nat) :
   repeat' split
   all_goals simp
 
-theorem cniRx_wss (lk : Lookup) (c : Carrier) (v : Nat) (s : State) : WssStay s (cniRx lk c v s).1 := by
-  by_cases h : v = cniOf c s.net
-  · by_cases h2 : s.net.cycle = 1
-    · by_cases h3 : (lk c v).1 = s.net.nuid
-      · rw [cniRx_same lk c v s h h2 h3]; exact Or.inl ⟨rfl, rfl, rfl⟩
-      · by_cases h4 : s.net.nuid = 0
-        · rw [cniRx_first lk c v s h h2 h3 h4]; exact Or.inl ⟨rfl, rfl, rfl⟩
-        · by_cases h5 : (lk c v).1 = 0
-          · rw [cniRx_unknown lk c v s h h2 h4 h5]; exact Or.inr ⟨rfl, rfl, rfl⟩
-          · rw [cniRx_switch lk c v s h h2 h3 h4 h5]; exact Or.inr ⟨rfl, rfl, rfl⟩
-    · rw [cniRx_idle lk c v s h h2]; exact WssStay.refl s
-  · rw [cniRx_change lk c v s h]; exact Or.inl ⟨rfl, rfl, rfl⟩
+theorem cniRx_wss (cfg : Cfg) (c : Carrier) (v : Nat) (s : State) : WssStay s (cniRx cfg c v s).1 := by
+  apply cniRx_cases cfg c v s (fun r => WssStay s r.1)
+  · intro _; exact Or.inl ⟨markChange_wssLast .., markChange_wssRep .., markChange_wssTime ..⟩
+  · intro _ _; exact WssStay.refl s
+  · intro _ _ _; exact Or.inl ⟨markDone_wssLast .., markDone_wssRep .., markDone_wssTime ..⟩
+  · intro _ _ _ _; exact Or.inl ⟨markDone_wssLast .., markDone_wssRep .., markDone_wssTime ..⟩
+  · intro _ _ _ _ _; exact Or.inr ⟨markDone_wssLast .., markDone_wssRep .., markDone_wssTime ..⟩
+  · intro _ _ _ _ _; exact Or.inr ⟨markDone_wssLast .., markDone_wssRep .., markDone_wssTime ..⟩
 
 theorem rxXds_wss (g : Bool) (s : State) (ty : Nat) (bytes : List Nat) : WssStay s (rxXds g s ty bytes).1 := by
   have key := chswReset_wss
@@ -61,7 +57,7 @@ theorem prologue_wss (s : State) (t : Nat) : WssStay s (prologue s t).1 := by
     | (left; exact ⟨rfl, rfl, rfl⟩)
     | (right; simp [key])
 
-theorem eventEnable_wss (s : State) (m : Nat) : WssStay s (eventEnable s m) := by
+theorem eventEnable_wss (k : Bool) (s : State) (m : Nat) : WssStay s (eventEnable k s m) := by
   simp only [eventEnable, WssStay]
   repeat' split
   all_goals (left; exact ⟨rfl, rfl, rfl⟩)
@@ -69,7 +65,7 @@ theorem eventEnable_wss (s : State) (m : Nat) : WssStay s (eventEnable s m) := b
 theorem stepAtom_wss (cfg : Cfg) (s : State) (a : Atom) (h : a.wssFree = true) : WssStay s (stepAtom cfg s a).1 := by
   cases a with
   | tick t => exact prologue_wss s t
-  | mask m => exact eventEnable_wss s m
+  | mask m => exact eventEnable_wss _ s m
   | chsw => exact Or.inl ⟨rfl, rfl, rfl⟩
   | line t l =>
     simp only [stepAtom]
@@ -81,17 +77,17 @@ theorem stepAtom_wss (cfg : Cfg) (s : State) (a : Atom) (h : a.wssFree = true) :
     | xds ty bytes => exact rxXds_wss _ s ty bytes
     | vps b =>
       have k := rxLine_cniStep cfg t s (.vps b) (Or.inl ⟨b, rfl⟩)
-      have w := cniRx_wss cfg.lk .vps (decodeVpsCni b) s
+      have w := cniRx_wss cfg .vps (decodeVpsCni b) s
       simp only [lineCni, cniStep] at k
       unfold WssStay at w ⊢
       rw [k.2.2.2.2.2.1, k.2.2.2.2.2.2.1, k.2.2.2.2.2.2.2.1]
       exact w
     | ttx b =>
       have k := rxLine_cniStep cfg t s (.ttx b) (Or.inr ⟨b, rfl⟩)
-      have w : WssStay s (cniStep cfg.lk s (lineCni s.mask (.ttx b))).1 := by
+      have w : WssStay s (cniStep cfg s (lineCni s.mask (.ttx b))).1 := by
         cases lineCni s.mask (.ttx b) with
         | none => exact WssStay.refl s
-        | some p => exact cniRx_wss cfg.lk p.1 p.2 s
+        | some p => exact cniRx_wss cfg p.1 p.2 s
       unfold WssStay at w ⊢
       rw [k.2.2.2.2.2.1, k.2.2.2.2.2.2.1, k.2.2.2.2.2.2.2.1]
       exact w
